@@ -54,7 +54,7 @@ def plan(ctx):
     MU = ["rsvand", "galois_stubbed", "gf16_ref", "ref_format", "xor_eq", "env"]
     if thorough:
         shapes = [(k, m) for k in range(1, 32) for m in range(1, 33 - k) if k + m <= 16 or m <= 4 or k <= 2]
-        shapes = [s for s in shapes if s[0] * (s[0] + s[1]) <= 200]
+        shapes = [s for s in shapes if s[0] * (s[0] + s[1]) <= 200 and (s[0] + s[1] <= 12 or s[1] <= 4 or s[0] <= 2 or (s[0] + s[1]) % 4 == 0)]
     else:
         shapes = [(1, 1), (2, 1), (1, 2), (2, 2), (3, 2), (4, 2), (5, 3), (10, 4), (8, 8), (1, 31), (12, 4), (6, 26)]
     for k, m in shapes:
